@@ -237,7 +237,88 @@ fn native_v<V: Fv>(ctx: &Ctx, nkeys: usize, per_key: usize, rep: &mut Report) {
     rep.merge(r);
 }
 
+/// One step of a call history: sign with the key as held, or with the key / public key /
+/// signature taken through their byte encodings first; the signature must verify.
+fn history_step<V: Fv>(k: &Key<V>, h: &[i64], mode: u32, msg: &[u8], hist: &str, rep: &mut Report) {
+    rep.evaluations += 1;
+    let replay = json!({"variant": V::NAME, "key_seed": hex(&k.seed), "msg": hex(msg), "native": true, "history": hist});
+    let r = monitored(|| {
+        let sk = if mode & 1 == 1 { V::sk_from_bytes(&V::sk_to_bytes(&k.sk)).map_err(|e| format!("sk roundtrip: {}", e))? } else { k.sk.clone() };
+        let sig = V::sign(msg, &sk);
+        let sig = if mode & 2 == 2 { V::sig_from_bytes(&V::sig_to_bytes(&sig)).map_err(|e| format!("sig roundtrip: {}", e))? } else { sig };
+        let pk = if mode & 4 == 4 { V::pk_from_bytes(&V::pk_to_bytes(&k.pk)).map_err(|e| format!("pk roundtrip: {}", e))? } else { k.pk.clone() };
+        Ok::<_, String>((V::verify(msg, &sig, &pk), V::sig_to_bytes(&sig)))
+    });
+    match r {
+        Err(p) => rep.violation(&format!("panic:history@{}", short_loc(&p.location)), format!("{} sign/verify panicked inside a call history ({}): {}", V::NAME, hist, p.message), replay),
+        Ok(Err(e)) => rep.violation("history:roundtrip-fails", format!("{}: {} inside a call history ({})", V::NAME, e, hist), replay),
+        Ok(Ok((v1, sb))) => {
+            let v2 = sb.len() == V::SIG_LEN && spec::verify_traced(msg, &sb[1..41], &sb[41..], h).0;
+            if !v1 || !v2 {
+                rep.violation("sign:signature-rejected-in-a-call-history", format!("{}: honest signature rejected inside a call history ({}; step mode {}): verify = {}, reference = {}", V::NAME, hist, mode, v1, v2), replay);
+            }
+            rep.count("history_signatures", 1);
+        }
+    }
+}
+
+/// Call histories in fresh threads: both parameter sets, several keys, keys and signatures
+/// passing through their encodings, the same message under different keys back to back.
+fn histories(ctx: &Ctx, rep: &mut Report) {
+    use rand::Rng;
+    let (k5, _) = pool::keys::<F512>(ctx.seed, "c01-hist", 3);
+    let (k10, _) = pool::keys::<F1024>(ctx.seed, "c01-hist", 2);
+    if k5.len() < 3 || k10.len() < 2 {
+        rep.inconclusive("no keys for the call histories".into());
+        return;
+    }
+    let h5: Vec<Vec<i64>> = k5.iter().map(|k| spec::pk_fields(&F512::pk_to_bytes(&k.pk)[1..])).collect();
+    let h10: Vec<Vec<i64>> = k10.iter().map(|k| spec::pk_fields(&F1024::pk_to_bytes(&k.pk)[1..])).collect();
+    let nh = ctx.sz(32, 400);
+    let r = par_for(nh, ncpu(), |hi, rep| {
+        let (k5, k10, h5, h10) = (&k5, &k10, &h5, &h10);
+        let vseed = ctx.seed;
+        let out = std::thread::scope(|s| {
+            s.spawn(move || {
+                vh::set_sign_rng(None);
+                let mut rep = Report::new();
+                let mut rng = rng_for(vseed, &format!("c01-hist-{}", hi));
+                let steps = 16;
+                let mut msg: Vec<u8> = format!("history-{}", hi).into_bytes();
+                for st in 0..steps {
+                    // mostly a new message; sometimes the previous one again (other key)
+                    if rng.gen_range(0..3) != 0 {
+                        msg = format!("history-{}-{}", hi, st).into_bytes();
+                    }
+                    let mode = rng.gen_range(0..8u32);
+                    let first_1024 = hi % 2 == 1;
+                    let use1024 = if st == 0 { first_1024 } else { rng.gen_range(0..3) == 0 };
+                    let hist = format!("history {} step {}", hi, st);
+                    if use1024 {
+                        let i = rng.gen_range(0..k10.len());
+                        history_step::<F1024>(&k10[i], &h10[i], mode, &msg, &hist, &mut rep);
+                    } else {
+                        let i = rng.gen_range(0..k5.len());
+                        history_step::<F512>(&k5[i], &h5[i], mode, &msg, &hist, &mut rep);
+                    }
+                }
+                rep.count("call_histories", 1);
+                rep.nontrivial(format!("hist|{}", hi).as_bytes());
+                rep
+            })
+            .join()
+        });
+        match out {
+            Ok(r) => rep.merge(r),
+            Err(_) => rep.inconclusive("a history thread died".into()),
+        }
+    });
+    rep.merge(r);
+    rep.require("call_histories", 16);
+}
+
 pub fn native(ctx: &Ctx, rep: &mut Report) {
+    histories(ctx, rep);
     // Falcon-1024 compresses into a tight budget: about one signature in a thousand takes the
     // compression-retry branch naturally, so this leg signs enough to see it
     native_v::<F1024>(ctx, ctx.sz(4, 24), ctx.sz(4000, 60000), rep);
